@@ -176,7 +176,7 @@ func init() {
 				// racing creates with different parameters / keys / tags
 				return &t_api.Request{Kind: t_api.CreatePromise, CreatePromise: &t_api.CreatePromiseRequest{
 					Id: id, IdempotencyKey: key(r), Param: promise.Value{Headers: map[string]string{"n": fmt.Sprint(n)}, Data: []byte(fmt.Sprintf("param%d", n))},
-					Timeout: w.now + 20 + int64(r.intn(5)), Tags: map[string]string{"t": fmt.Sprint(n)}}}
+					Timeout: w.now + int64(pick(r, []int{2, 3, 4, 20, 22})), Tags: map[string]string{"t": fmt.Sprint(n)}}}
 			case kind == 1:
 				// racing completions with different states and values
 				return &t_api.Request{Kind: t_api.CompletePromise, CompletePromise: &t_api.CompletePromiseRequest{
@@ -248,7 +248,7 @@ func init() {
 				c = 1
 			}
 			c += pick(r, []int{0, 0, 0, 0, -1, 1})
-			return &t_api.Request{Kind: t_api.ClaimTask, ClaimTask: &t_api.ClaimTaskRequest{Id: tid, Counter: c, ProcessId: pick(r, []string{"p1", "p2"}), Ttl: r.intn(4)}}
+			return &t_api.Request{Kind: t_api.ClaimTask, ClaimTask: &t_api.ClaimTaskRequest{Id: tid, Counter: c, ProcessId: pick(r, []string{"p1", "p2"}), Ttl: pick(r, []int{0, 1, 2, 3, 40, 60})}}
 		case 14, 15, 16:
 			tid := pick(r, tids)
 			c := tcount[tid]
